@@ -8,7 +8,8 @@ import "github.com/snower/slock/protocol"
 // a holder's hold on the key has ended and the manager only lives on through the wheel's reference;
 // right before a new request B acquires the manager's mutex (vfLockHook) the clock's sweep runs and
 // retires the manager.  B is then granted (on whatever manager); a third request C with Count 0 and
-// Timeout 0 must be refused while B holds — for an ordinary key and for the key of 16 zero bytes.
+// Timeout 0 must be refused while B holds — for an ordinary key and for the key of 16 zero bytes, with
+// the retired manager left in the pool or already handed to a request for another key.
 // Executor only.
 
 func init() { vfHarnesses["C01_tombstone"] = vfH_C01_tombstone }
@@ -30,16 +31,30 @@ func vfH_C01_tombstone() {
 	}
 	vfReach("manager-lingers")
 	swept := false
+	reuse := vfChoice("reuse", 2) == 1
 	vfLockHook(&m.glock.mutex, func() {
 		swept = true
 		vfTick(env, 3) // the wheel's look at the released hold: last reference gone, manager retired
+		if reuse {
+			// ... and a request for another key is handed the retired manager from the pool
+			// (the pool hands out the managers of its last batch first: a dozen new keys reach the retired one)
+			for i := uint8(0); i < 12; i++ {
+				o := env.newCmd(protocol.COMMAND_LOCK, vfKey(20+i), vfLockId(7))
+				o.Expried, o.ExpriedFlag = 1000, 0x0200
+				env.lock(0, o)
+				if env.manager(vfKey(20+i)) == m {
+					vfReach("reused")
+					break
+				}
+			}
+		}
 	})
 	b := env.newCmd(protocol.COMMAND_LOCK, key, vfLockId(2))
 	b.Expried, b.ExpriedFlag = 1000, 0x0200
 	env.lock(1, b)
 	vfAssert(swept, "C01: harness: the request never took the manager's mutex")
 	rb := env.repliesFor(b.RequestId)
-	vfAssert(len(rb) == 1 && rb[0].result == protocol.RESULT_SUCCED, "C01: harness: the request on a free key was not granted")
+	vfAssert(len(rb) == 1 && rb[0].result == protocol.RESULT_SUCCED, "C01: a request for a key nobody holds was not granted (it was applied to a manager that had been retired and handed to another key)")
 	if env.manager(key) != m {
 		vfReach("retired-in-between")
 	}
